@@ -1530,7 +1530,22 @@ fn run_mmapvec<T: Elem + Copy>(ctx: &mut Ctx, cap: usize, ops: &[VOp]) {
     let _ = std::fs::create_dir_all(&dir);
     let path = dir.join("c10_mmapvec.bin");
     let _ = std::fs::remove_file(&path);
-    let made = ctx.no_panic("construct", || MmapVec::<T>::create(&path, mmap_cfg(cap)));
+    // every public preset (growth factor, sync_on_write, page population, ...) is part of the
+    // configuration space; the initial capacity stays the generated one so that growth happens
+    let preset = (cap + ops.len()) % 6;
+    let cfg = MmapVecConfig {
+        initial_capacity: cap,
+        ..match preset {
+            1 => MmapVecConfig::large_dataset(),
+            2 => MmapVecConfig::persistent_cache(),
+            3 => MmapVecConfig::performance_optimized(),
+            4 => MmapVecConfig::memory_optimized(),
+            5 => MmapVecConfig::realtime(),
+            _ => MmapVecConfig::default(),
+        }
+    };
+    ctx.label(format!("mmapvec_preset={}", ["default", "large_dataset", "persistent_cache", "performance_optimized", "memory_optimized", "realtime"][preset]));
+    let made = ctx.no_panic("construct", || MmapVec::<T>::create(&path, cfg));
     match made {
         Some(Ok(mut v)) => {
             let mut fl = VFlags::default();
